@@ -6,7 +6,7 @@ CONSTANTS
   ExtraPush = 3
   ExtraPop = 2
   MaxUnblockPush = 2
-  MaxUnblockPop = 2
+  MaxUnblockPop = 1
   AllowDestroy = TRUE
   Fixed = TRUE
   MaxThrow = 1
